@@ -3,3 +3,4 @@ import NjectProofs.Refine
 import NjectProofs.Static
 import NjectProofs.Machine
 import NjectProofs.EditProofs
+import NjectProofs.ConcProofs
